@@ -5,7 +5,7 @@ ROOT = os.path.dirname(os.path.dirname(os.path.abspath(__file__)))
 stm = open(ROOT + "/lean/FeatModel/Props/C19.statements").read()
 groups = {"renders": ["injectify_spec", "transpose_spec", "injectifyTranspose_spec", "compose_spec", "sortIndices_spec", "arrays_faithful"],
           "perms": ["swapFromPerm_terminates", "swap_perm_agree", "inverse_swaps_undo", "applyPermInv_undoes", "invPerm_spec", "concat_composes", "permFromSwap_bijection"],
-          "color": ["coloring_proper", "coloring_bounds", "coloringOrdered_proper", "partitionGraph_spec"],
+          "color": ["coloring_proper", "coloring_bounds", "coloring_proper_scanned", "coloring_nonsymmetric_witness", "coloringOrdered_proper", "partitionGraph_spec"],
           "cm": ["cm_bijection"],
           "walk": ["adjactor_ofGraph_spec", "adjactor_composite_spec", "walk_spec"],
           "rowk": ["renderRows_spec", "sortSegments_spec"],
@@ -17,7 +17,40 @@ groups = {"renders": ["injectify_spec", "transpose_spec", "injectifyTranspose_sp
                   "dyn_render_spec", "dyn_compose_spec"],
           "layers": ["cm_layers_are_bfs_levels"],
           "csr": ["graph_csr_permute_consistent"],
+          "cmroot": ["findRoot_spec", "sortLevel_stable", "cm_empty_aborts"],
+          "cmexact": ["cm_ordering_spec", "cm_reverse_exact"],
+          "color2": ["coloringOrdered_bounds", "coloringOrdered_proper_scanned", "coloringOrdered_colors_contiguous",
+                     "partition_transpose_roundtrip"],
+          "blk": ["blocked_apply_spec", "indexSetPermute_is_graph_permuted"],
           "perms2": ["inverse_inverse", "concat_inverse", "self_concat", "self_concat_aliased", "random_ctor_bijection", "graph_permuted_spec"]}
+# lemma whose name differs from the property theorem (old signature kept for other properties' imports)
+ALIAS = {"coloring_bounds": "coloring_bounds_free"}
+HYP_NOTES = """Remaining hypotheses of the C19 theorems and why they stay (everything else was removed or turned into a conclusion):
+* `g.wf = true` (all image indices < `nImg`): class invariant of `Adjacency::Graph` that no constructor checks (Copy-Array /
+  Copy-Vector copy what they get); the kernels index `idx_mask[*it]`, `_domain_ptr[*it + 1]`, `image_ptr[*it]` with the
+  indices, so without it the C++ is undefined behaviour. `permuteIndices_spec` needs no hypothesis: an out-of-range index is
+  part of its guard (`_perm_pos.at` throws).
+* `g.nImg = g.nDom`: `Coloring(graph)` and `CuthillMcKee::compute` take a node-to-node graph (both index node arrays with
+  image indices).
+* `hsym` (`coloring_proper`, `coloringOrdered_proper`): coloring.hpp documents "adjacent nodes do not have the same color"
+  for a *graph* in the undirected sense; both constructors only look at neighbours that are already coloured. What holds
+  for ANY graph: `coloring_proper_scanned`, `coloringOrdered_proper_scanned` (a node differs from every out-neighbour
+  coloured before it); `coloring_nonsymmetric_witness` shows symmetry cannot be dropped. The colour bounds
+  (`coloring_bounds`, `coloringOrdered_bounds`) and contiguity need no hypothesis on the graph.
+* `Perm.isBijection p` / swap-range hypotheses: class invariant of `Adjacency::Permutation`; constructors do not validate
+  (`swapFromPerm_terminates`: termination is only guaranteed for bijections). `order` of `Coloring(graph, order)` is
+  documented as a permutation array.
+* `A.Lawful`, `A.toGraph.wf`: hold for every adjactor the driver builds (`adjactor_ofGraph_spec`,
+  `adjactor_composite_spec`, `C19L.walk.compose_wf`).
+* `hn : 0 < g.nDom` (Cuthill-McKee): `cm_empty_aborts` shows the other case aborts (`Permutation(0)`); logically implied by
+  `compute = some _` where that is a hypothesis.
+* sortedness of `DynGraph` rows: `std::set` invariant, established by `empty` and preserved by every operation
+  (`dyn_insert_spec`, `dyn_erase_spec`, `dyn_ofAdjactor*_spec`, `dyn_compose_spec`).
+* index-range hypotheses (`i < g.nImg`, `i < g.nDom`, `hj : j < col.length`, `h : c ∈ col → c < nc`): the quantifier
+  range of the statement (rows that exist / colours that are below `num_colors`).
+* `compositeIterator_spec` / `_empty_head` describe the pre-1c006df21 begin constructor; the current one is
+  `compositeIterator_fixed_spec` (no hypothesis).
+Per theorem (hypothesis binders as written below):"""
 have = {}
 for k, names in groups.items():
     p = ROOT + "/lean/FeatModel/Lemmas/C19_%s.lean" % k
@@ -28,9 +61,11 @@ for k, names in groups.items():
                 have[n] = k
 blocks = re.split(r"\n(?=theorem )", stm)
 out = ["import FeatModel.Model.Adjacency", "import FeatModel.Model.AdjKernels"] + ["import FeatModel.Lemmas.C19_%s" % k for k in sorted(set(have.values()))]
-out += ["/-! # C19 — property theorems (statements only; proofs live in Lemmas/C19_*.lean) -/", "open FeatModel.Adj", "",
+HEADER_AT = len(out)
+out += ["open FeatModel.Adj", "",
         "theorem C19.render_asIs_spec (g : Graph) : g.render 0 = some g := rfl", ""]
 missing = []
+hyp_list = []
 for b in blocks:
     m = re.match(r"theorem C19\.(\w+)", b)
     if not m or m.group(1) == "render_asIs_spec":
@@ -61,6 +96,10 @@ for b in blocks:
             break
         else:
             i += 1
-    out.append(head.rstrip() + " :=\n  C19L.%s.%s %s\n" % (have[name], name, " ".join(binders)))
+    hyps = [b for b in binders if re.match(r"h\w*$", b)]
+    hyp_list.append("* `%s`: %s" % (name, ", ".join(hyps) if hyps else "none"))
+    out.append(head.rstrip() + " :=\n  C19L.%s.%s %s\n" % (have[name], ALIAS.get(name, name), " ".join(binders)))
+out.insert(HEADER_AT, "/-! # C19 — property theorems (statements only; proofs live in Lemmas/C19_*.lean)\n\n" + HYP_NOTES + "\n" +
+           "\n".join(hyp_list) + "\n-/")
 open(ROOT + "/lean/FeatModel/Props/C19.lean", "w").write("\n".join(out))
 print("proved:", sorted(have), "\nmissing:", missing)
